@@ -485,7 +485,9 @@ class RegionArrowScalar(pa.ExtensionScalar):
     Use the standard `as_py` method to convert to an actual region.
     """
 
-    def as_py(self) -> Region:
+    def as_py(self) -> Region | None:
+        if self.value is None:
+            return None
         return Region.decode(self.value.as_py())
 
 
